@@ -9,9 +9,10 @@
     store and cache take their own locks) is decided on every run by the -race engine, which runs
     the owners' histories in parallel goroutines over a shared frozen cache/store under the Go race
     detector and compares each owner's observations with its solo run.  PARTIAL for that reason;
-    LoadMast during the concurrent phase and the ARC cache are also outside these theorems. *)
+    the ARC cache is also outside these theorems.  LoadMast during the concurrent phase is covered
+    by the second theorem below (at the level of results, through the abstract world). *)
 From Coq Require Import List NArith ZArith Bool.
-From Mast Require Import Prim Key Tree Codec Store Diff World Hist Conc.
+From Mast Require Import Prim Key Tree Codec Store Diff World Hist Conc Reload WorldInv ConcHist.
 Import ListNotations.
 
 (** a call that uses only what its owner owns (trees, cursors, captured roots) computes the same
@@ -50,6 +51,38 @@ Example C11_example :
   length (observed 0 (wrun empty_world setup) inter) = 5%nat.
 Proof. vm_compute. repeat split; reflexivity. Qed.
 
+(** The same with persists AND reloads: every owner persists into and reloads from the shared stores
+    (LoadMast of its own captured roots, whose nodes sit among everybody's in the store), in either
+    node format; in EVERY interleaving each owner's results are those of its own history run alone.
+    Side conditions [conds] (decidable) on the interleaved history and on the owner's own history. *)
+Theorem C11_alone_with_persist_and_reload : forall (owner_ids : nat -> ConcHist.ids) (a : nat),
+  (forall j i, j <> a -> owner_ids j i = true -> owner_ids a i = false) ->
+  forall l, all_own owner_ids l = true ->
+  conds empty_world ([], []) (map snd l) -> conds empty_world ([], []) (ConcHist.mine a l) ->
+  observed_p a empty_world l = map (fun y => pobs (fst y)) (run empty_world (ConcHist.mine a l)).
+Proof. exact alone_with_persist_and_reload. Qed.
+
+(** non-vacuity: two owners, each with its own trees and roots over one store, persisting, reloading
+    and modifying in turn *)
+Definition ids2 (j : nat) : ConcHist.ids := fun i => if Nat.eqb j 0 then (i <? 10)%N else (10 <=? i)%N.
+Definition inter2 : list ConcHist.tagged :=
+  [(0, ONew 0 0 2 None 1); (1, ONew 10 0 3 (Some FV1) 1); (0, OIns 0 (KUint 1%N) [49%N]); (1, OIns 10 (KUint 1%N) [49%N]);
+   (0, OIns 0 (KUint 2%N) [50%N]); (1, OIns 10 (KUint 6%N) [54%N]); (0, OMakeRoot 0 0); (1, OMakeRoot 10 10);
+   (1, OLoad 10 11 0 1); (0, OLoad 0 1 0 1); (1, OIns 11 (KUint 9%N) [57%N]); (0, ODel 1 (KUint 1%N) [49%N]);
+   (1, OMakeRoot 11 11); (0, OIter 1); (0, OMakeRoot 1 1); (1, OLoad 11 12 0 1); (1, OIter 12); (0, ODiff 1 (Some 0%N))]%nat.
+Example C11_example_persist_reload :
+  all_own ids2 inter2 = true /\
+  conds empty_world ([], []) (map snd inter2) /\ conds empty_world ([], []) (ConcHist.mine 0 inter2) /\
+  conds empty_world ([], []) (ConcHist.mine 1 inter2) /\
+  observed_p 1 empty_world inter2 = map (fun y => pobs (fst y)) (run empty_world (ConcHist.mine 1 inter2)) /\
+  length (observed_p 0 empty_world inter2) = 9%nat.
+Proof.
+  split; [vm_compute; reflexivity|]. split; [apply condsb_ok; vm_compute; reflexivity|].
+  split; [apply condsb_ok; vm_compute; reflexivity|]. split; [apply condsb_ok; vm_compute; reflexivity|].
+  vm_compute. split; reflexivity.
+Qed.
+
 Print Assumptions C11_step_is_local.
 Print Assumptions C11_step_frame.
 Print Assumptions C11_alone_in_any_interleaving.
+Print Assumptions C11_alone_with_persist_and_reload.
